@@ -27,7 +27,8 @@ tvars == <<l, stack, viol, drift>>
 
 SpecAllows(line, cur) ==
     CASE line.k = "new" ->
-            /\ line.res = (IF ValidateOptions(line.mode) THEN "ok" ELSE "invalid")
+            /\ line.res = (IF ValidateOptions(Eff(line.mode)) THEN "ok" ELSE "invalid")
+            /\ line.mode.bc = Eff(line.mode).bc /\ line.mode.cb = Eff(line.mode).cb
             /\ line.pre = <<>> /\ line.post = <<>> /\ line.calls = <<>>
       [] line.k = "ins" ->
             /\ line.pre = cur
@@ -39,7 +40,7 @@ SpecAllows(line, cur) ==
             /\ line.pre = cur
             /\ \A j \in DOMAIN line.pre : line.pre[j].e \in EonIds
             /\ IsPerm(line.ord, Len(line.pre))
-            /\ LET t == Tick(line.pre, line.ord, line.q, line.fail, line.mode) IN
+            /\ LET t == Tick(line.pre, line.ord, line.q, line.fail, Eff(line.mode)) IN
                t.rows = line.post /\ t.calls = line.calls /\ t.err = line.err
       [] OTHER -> FALSE
 
